@@ -284,7 +284,7 @@ func Explore(opt Options, body func(x *X)) *Result {
 		opt.StepLimit = 20000
 	}
 	if opt.HangAfter == 0 {
-		opt.HangAfter = 20 * time.Second
+		opt.HangAfter = 90 * time.Second
 	}
 	e := &Explorer{opt: opt, body: body, res: &Result{Outcomes: map[string]int64{}, Failures: map[string]*Failure{}, FailCount: map[string]int64{}, Exhaustive: true}}
 	e.explore(nil, 0)
@@ -297,7 +297,7 @@ func Replay(opt Options, choices []int, body func(x *X)) ([]Failure, []string) {
 		opt.StepLimit = 20000
 	}
 	if opt.HangAfter == 0 {
-		opt.HangAfter = 20 * time.Second
+		opt.HangAfter = 90 * time.Second
 	}
 	e := &Explorer{opt: opt, body: body, res: &Result{Outcomes: map[string]int64{}, Failures: map[string]*Failure{}, FailCount: map[string]int64{}}}
 	x := e.run(choices, true)
